@@ -473,6 +473,40 @@ func c14RetryRules(c *Ctx) error {
 	c.P("Definition retry_rules : list string := %s.", CoqStrList(rules))
 	c.Info("retry_rules", rules)
 
-	// attestMessageWrapper removes the attested message inside the same cache context
+	// the score cache of msgAssigner is dead as long as PickValidatorForMessage has a value receiver
+	// (ma.scores / removeWinnerFromSnapshot are written to a copy): the models recompute per call
+	pk := FindFuncIn(prod, "msgAssigner", "PickValidatorForMessage")
+	if pk == nil || pk.Recv == nil || len(pk.Recv.List) != 1 {
+		return fmt.Errorf("msgAssigner.PickValidatorForMessage not found")
+	}
+	recv := "value"
+	if _, ok := pk.Recv.List[0].Type.(*ast.StarExpr); ok {
+		recv = "pointer"
+	}
+	c.P("Definition msg_assigner_pick_receiver : string := %s.", CoqStr(recv))
+
+	// the truncation at the end of GetMessagesForRelaying
+	ck, err := c.Parse("x/consensus/keeper/concensus_keeper.go")
+	if err != nil {
+		return err
+	}
+	gm := FindFunc(ck, "Keeper", "GetMessagesForRelaying")
+	if gm == nil {
+		return fmt.Errorf("GetMessagesForRelaying not found")
+	}
+	var capShape []string
+	for _, st := range gm.Body.List {
+		if is, ok := st.(*ast.IfStmt); ok && strings.Contains(c.Src(is.Cond), "defaultResponseMessageCount") {
+			body := ""
+			for _, b := range is.Body.List {
+				body += c.Src(b) + ";"
+			}
+			capShape = append(capShape, "if "+c.Src(is.Cond)+" {"+body+"}")
+		}
+	}
+	if len(capShape) != 1 {
+		return fmt.Errorf("GetMessagesForRelaying: expected exactly one truncation by defaultResponseMessageCount, got %d", len(capShape))
+	}
+	c.P("Definition relay_cap_shape : string := %s.", CoqStr(capShape[0]))
 	return nil
 }
